@@ -12,6 +12,58 @@ if os.path.join(REPO, "src") not in sys.path:
     sys.path.insert(0, os.path.join(REPO, "src"))
 
 
+def _round_half_even(x):
+    """numpy rounds half to even; floor() of a symbolic value is decided by the solver like every other branch"""
+    f = math.floor(x + 0.5)
+    if (x + 0.5) == f and f % 2 == 1:
+        f -= 1
+    return f
+
+
+class _LazyRound:
+    """np.round(<symbolic>) – the repository only prints such values; the rounding (a solver-decided floor) happens only if the number is used"""
+
+    def __init__(self, x):
+        self._x = x
+        self._v = None
+
+    def _val(self):
+        if self._v is None:
+            self._v = _round_half_even(self._x)
+        return self._v
+
+    def __format__(self, spec):
+        return "<sym>"
+
+    __repr__ = __str__ = lambda self: "<sym>"
+
+    def __int__(self):
+        return int(self._val())
+
+    __index__ = __int__
+
+    def __float__(self):
+        return float(self._val())
+
+    def __hash__(self):
+        return hash(self._val())
+
+    def __bool__(self):
+        return bool(self._val())
+
+
+def _lazy_ops():
+    import operator
+    for name in ("add", "sub", "mul", "truediv", "floordiv", "mod", "lt", "le", "gt", "ge", "eq", "ne"):
+        op = getattr(operator, name)
+        setattr(_LazyRound, f"__{name}__", (lambda op: lambda self, o: op(self._val(), o._val() if isinstance(o, _LazyRound) else o))(op))
+        if name in ("add", "sub", "mul", "truediv", "floordiv", "mod"):
+            setattr(_LazyRound, f"__r{name}__", (lambda op: lambda self, o: op(o, self._val()))(op))
+
+
+_lazy_ops()
+
+
 class _NpShim:
     """`np` as seen by belt_store / continuous_conveyor: abs/round/ceil dispatch to the symbolic value."""
 
@@ -26,10 +78,10 @@ class _NpShim:
 
     def round(self, x, *a):
         from . import symx
-        if isinstance(x, (symx.SymReal, symx.SymInt)):
-            return x     # only used inside print() calls
-        if isinstance(x, symx.QReal):
-            return round(float(x))
+        if isinstance(x, (symx.SymReal, symx.SymInt)) and not a:
+            return _LazyRound(x)
+        if isinstance(x, symx.QReal) and not a:
+            return _round_half_even(x)
         return self._np.round(x, *a)
 
     def ceil(self, x):
